@@ -183,8 +183,14 @@ func genCase(t *rapid.T) Case {
 		c.ViewBox[i] = ops.F32(v)
 	}
 	c.Rect = [4]int{rapid.IntRange(-50, 200).Draw(t, "rx"), rapid.IntRange(-50, 200).Draw(t, "ry"), rapid.IntRange(1, 600).Draw(t, "rw"), rapid.IntRange(1, 600).Draw(t, "rh")}
-	if rapid.IntRange(0, 4).Draw(t, "origin") == 0 {
+	switch rapid.IntRange(0, 9).Draw(t, "origin") {
+	case 0, 1:
 		c.Rect[0], c.Rect[1] = 0, 0
+	case 2: // a tile of a huge virtual canvas: origins beyond what a float32 holds exactly
+		c.Rect[0] = (1<<uint(rapid.IntRange(24, 30).Draw(t, "hugex")) + rapid.IntRange(-3, 3).Draw(t, "hugexd")) * rapid.SampledFrom([]int{1, -1}).Draw(t, "hugexs")
+		if rapid.Bool().Draw(t, "hugeboth") {
+			c.Rect[1] = 1<<uint(rapid.IntRange(24, 30).Draw(t, "hugey")) + rapid.IntRange(-3, 3).Draw(t, "hugeyd")
+		}
 	}
 	c.RectAfterReset = rapid.IntRange(0, 3).Draw(t, "rectafter") == 0
 	switch rapid.IntRange(0, 3).Draw(t, "prev") {
@@ -195,7 +201,9 @@ func genCase(t *rapid.T) Case {
 	}
 	if c.PrevRect[2] > 0 {
 		c.PrevOpen = rapid.IntRange(0, 2).Draw(t, "prevopen") == 0
-		switch rapid.IntRange(0, 2).Draw(t, "prevvb") {
+		switch rapid.IntRange(0, 3).Draw(t, "prevvb") {
+		case 3: // the earlier graphic was authored in the pixels of the coming rectangle: (0,0)-(w,h)
+			c.PrevViewBox = [4]ops.F32{0, 0, ops.F32(c.Rect[2]), ops.F32(c.Rect[3])}
 		case 0: // same size, origin shifted by whole units: same scale, other bias
 			dx, dy := float32(rapid.IntRange(-40, 40).Draw(t, "pvdx")), float32(rapid.IntRange(-40, 40).Draw(t, "pvdy"))
 			c.PrevViewBox = [4]ops.F32{c.ViewBox[0] + ops.F32(dx), c.ViewBox[1] + ops.F32(dy), c.ViewBox[2] + ops.F32(dx), c.ViewBox[3] + ops.F32(dy)}
@@ -317,6 +325,9 @@ func classify(c Case) (bool, []string) {
 		if m, w := math.Abs(float64(c.ViewBox[0])), float64(c.ViewBox[2])-float64(c.ViewBox[0]); m > 200*w {
 			labels = append(labels, "viewbox-more-than-200-sizes-from-the-origin")
 		}
+	}
+	if c.Rect[0] > 1<<23 || c.Rect[0] < -1<<23 || c.Rect[1] > 1<<23 {
+		labels = append(labels, "rect-origin-beyond-2^24")
 	}
 	if c.Rect[0] != 0 || c.Rect[1] != 0 {
 		labels = append(labels, "rect-off-origin")
